@@ -874,6 +874,28 @@ Fixpoint item_dotted (it : item) : bool :=
 (* no dotted name (a.b) in any annotation or base class the collector reads *)
 Definition dotted_free (s : list item) : bool := negb (existsb item_dotted s).
 
+(* a property of every return annotation / variable annotation the collector reads (function bodies
+   are not read) *)
+Fixpoint rets_ok (f : expr -> bool) (it : item) : bool :=
+  match it with
+  | Fun _ _ _ r _ => match r with Some a => f a | None => true end
+  | Cls _ _ _ b => forallb (rets_ok f) b
+  | Block _ b => forallb (rets_ok f) b
+  | _ => true
+  end.
+Fixpoint vars_ok (f : expr -> bool) (it : item) : bool :=
+  match it with
+  | AnnAssign _ a _ => f a
+  | Cls _ _ _ b => forallb (vars_ok f) b
+  | Block _ b => forallb (vars_ok f) b
+  | _ => true
+  end.
+(* `typing.Any` / `x.Never` written as a dotted name (dequalified to a bare Any/Never by libcst) *)
+Definition not_dotted_any (a : expr) : bool :=
+  match a with EAttr _ n => negb ((n =? id_Any) || (n =? id_Never)) | _ => true end.
+Definition dotted_any_free (s : list item) : bool :=
+  forallb (rets_ok not_dotted_any) s && forallb (vars_ok not_dotted_any) s.
+
 (* every import the stub asks for is `from typing import ...` *)
 Definition needs_typing_only (m : merged) : bool := forallb (fun mn => is_typing (fst mn)) (m_needs m).
 
